@@ -838,3 +838,10 @@ _upd("C14", "Handlers that consume the stream through the request API: the loop'
      "exactly the fields and files sent, a request that arrived whole is never answered with an error.")
 PROPS["C14"]["level_note"] += (" The amount mime/multipart takes from the stream is not modelled (bufio read-ahead): the model is evaluated for the two extremes and the theorems hold "
                                "for any amount. A handler that keeps the stream and reads it in a goroutine after returning is not covered.")
+# X03b: /repo 6e06925 repairs the former known finding C03-huge-chunk-alloc (both routes)
+_upd("C03", "Repaired in /repo 6e06925: a peer-declared body size (chunk-size line or Content-Length) no longer sizes an allocation before the data "
+     "arrived; the former known finding C03-huge-chunk-alloc is gone from the driver (a recurrence is a plain violation), its witnesses are the "
+     "regression theorem huge_declared_size_repaired (model verdict unexpected-EOF / time-out) and regression cases of the generator.")
+PROPS["C03"]["rule"] += (" Declared sizes 2^38+1, 2^40, 2^44 (Content-Length and chunk size, client reader and server) come last: before 6e06925 they "
+                         "killed the process with a fatal out-of-memory error, so a regression is a crashed harness (non-zero exit), which bin/check "
+                         "reports as a violation naming the announced RISKY-CASE input.")
